@@ -208,15 +208,18 @@ MakeTradesF(st, req, nlv) ==
         imbal  == {c \in cand \ bad : ~IsZero(imb(c))}
         \* imbalance weight: multiplier * quantity * acquisition price / NLV
         wprice(c) == AcqPrice(st, c, Sign(imb(c)))
-        noprice == {c \in imbal : wprice(c) = NaN}
-        w(c)   == Div(Mul(Mul(RM(Mult[c]), imb(c)), wprice(c)), nlv)
         qty(c) == IF req.fractional THEN imb(c) ELSE RM(TruncI(imb(c)))
-        keep   == {c \in imbal \ noprice : ~(Lt(RAbs(w(c)), req.thr) /\ Targeted(req, c))}
+        \* trading whole lots, an imbalance below one lot is skipped before any price of that contract is needed (the code
+        \* truncates the quantity first); with SubLot = "raise" (the pinned code) nothing was skipped
+        live   == IF SubLot = "skip" THEN {c \in imbal : ~IsZero(qty(c))} ELSE imbal
+        noprice == {c \in live : wprice(c) = NaN}
+        w(c)   == Div(Mul(Mul(RM(Mult[c]), imb(c)), wprice(c)), nlv)
+        keep   == {c \in live \ noprice : ~(Lt(RAbs(w(c)), req.thr) /\ Targeted(req, c))}
         sub    == {c \in keep : IsZero(qty(c))}
         unbuildable == {c \in keep : st.bid[c] = NaN \/ st.ask[c] = NaN}
         \* contracts whose imbalance weight is EXACTLY the threshold (binary floating point may
         \* land on either side unless the model's arithmetic is dyadic; the harness is told)
-        edge   == {c \in imbal \ noprice : Targeted(req, c) /\ RAbs(w(c)) = req.thr /\ ~IsZero(req.thr)}
+        edge   == {c \in live \ noprice : Targeted(req, c) /\ RAbs(w(c)) = req.thr /\ ~IsZero(req.thr)}
     IN  IF bad # {} \/ noprice # {} \/ unbuildable # {} THEN [out |-> "error", trades |-> <<>>, edge |-> {}]
         ELSE IF sub # {} /\ SubLot = "raise" THEN [out |-> "error", trades |-> <<>>, edge |-> {}]
         ELSE [out |-> "ok", trades |-> [c \in keep \ sub |-> qty(c)], edge |-> edge]
